@@ -7,6 +7,14 @@ time (a temporary known-findings list, VERIF_KNOWN_FILE) so the check reports th
 a replay. Any violation that is NOT a listed entry is printed as UNLISTED and stops the tool."""
 import json, os, re, subprocess, sys, shutil, tempfile
 
+def atomic_dump(obj, path):
+    import os, json as _j
+    tmp = path + ".tmp%d" % os.getpid()
+    with open(tmp, "w") as fh:
+        _j.dump(obj, fh, indent=1)
+    os.replace(tmp, path)
+
+
 V = "/verif"
 pid = sys.argv[1]
 workers = "6"
@@ -67,5 +75,5 @@ for g in kf2["findings"]:
     for f in done:
         if g["property"] == f["property"] and g["class"] == f["class"] and g["sig"] == f["sig"] and g["status"] == "open":
             g["replay"] = f["replay"]
-json.dump(kf2, open(f"{V}/known_findings.json", "w"), indent=1)
+atomic_dump(kf2, f"{V}/known_findings.json")
 sys.exit(status)
